@@ -627,7 +627,18 @@ func init() {
 				}
 				for k := 0; k <= 4; k++ {
 					for failAt := 0; failAt <= 2; failAt++ {
-						jobs = append(jobs, J(rootPkg, "H_C04_writer", k, failAt))
+						for mode := 0; mode <= 2; mode++ {
+							if failAt == 0 && mode > 0 {
+								continue
+							}
+							jobs = append(jobs, J(rootPkg, "H_C04_writer", k, failAt, mode))
+						}
+					}
+				}
+				for scn := 0; scn <= 4; scn++ {
+					for _, pause := range []int{3, 19, 27, 40} {
+						jobs = append(jobs, J(rootPkg, "H_C04_reader", scn, 2, 0, 0, 0, 8, 0, pause))
+						jobs = append(jobs, J(rootPkg, "H_C04_reader", scn, 0, 11, 7, 30, 8, 0, pause))
 					}
 				}
 				for scn := 0; scn <= 4; scn++ {
@@ -820,7 +831,7 @@ func init() {
 					bounds = []int{0, 1, 2}
 				}
 				for _, h := range []string{"H_C13_initiator", "H_C13_acceptor"} {
-					for cause := 0; cause < 5; cause++ {
+					for cause := 0; cause < 6; cause++ {
 						for point := 0; point < 5; point++ {
 							for _, buf := range []int{0, 1} {
 								for _, b := range bounds {
@@ -840,9 +851,9 @@ func init() {
 				}
 				return jobs
 			},
-			Explanation: "Partial, bounded. The complete connection plumbing - Initiator.Serve (conn.serve + reader goroutine, DefaultHandler.Run, writer loop, context watcher, forwarder, errgroup) and Acceptor.serve - runs as interpreted goroutines on a scripted net.Conn whose Close unblocks a pending Read like a real socket. Termination causes: peer closes (EOF), read error, write error, local Initiator.Close / Acceptor.Close, handler.Stop; injected when nothing has been exchanged, after inbound messages were delivered, inside a partially read inbound message, with an outbound message just handed over (an application goroutine is inside SendRaw), and after an inbound frame without MsgType has ended the handler loop; channel buffer sizes 0 and 1. Schedules: the deterministic cooperative one, plus every schedule with at most 1 (thorough: 2) preemptions at channel/select/cancel/go switch points from the moment of the cause (three rotations of the run-queue order). Asserted on every schedule: every goroutine started by the library finishes (a goroutine blocked forever is detected by the engine as a deadlock), the serving call returns, the socket is closed, later SendRaw/Send calls return, the non-initiating side got a disconnect or stopped notification, no goroutine remains.",
+			Explanation: "Partial, bounded. The complete connection plumbing - Initiator.Serve (conn.serve + reader goroutine, DefaultHandler.Run, writer loop, context watcher, forwarder, errgroup) and Acceptor.serve - runs as interpreted goroutines on a scripted net.Conn whose Close unblocks a pending Read like a real socket. Termination causes: peer closes (EOF), read error, write error, local Initiator.Close / Acceptor.Close, handler.Stop, the peer stops reading (every Write times out); injected when nothing has been exchanged, after inbound messages were delivered, inside a partially read inbound message, with an outbound message just handed over (an application goroutine is inside SendRaw), and after an inbound frame without MsgType has ended the handler loop; channel buffer sizes 0 and 1. Schedules: the deterministic cooperative one, plus every schedule with at most 1 (thorough: 2) preemptions at channel/select/cancel/go switch points from the moment of the cause (three rotations of the run-queue order). Asserted on every schedule: every goroutine started by the library finishes (a goroutine blocked forever is detected by the engine as a deadlock), the serving call returns, the socket is closed, later SendRaw/Send calls return, the non-initiating side got a disconnect or stopped notification, no goroutine remains.",
 			Rule:        "case = (side, cause, point, buffer size, preemption bound, run-queue rotation) x schedule",
-			Bounds:      map[string]string{"quick": "5 causes x 5 points x buffers {0,1} x 2 sides; preemption bound <= 1 at coarse switch points (tens to hundreds of schedules per case)", "thorough": "preemption bound <= 2 (hundreds to thousands of schedules per case)"},
+			Bounds:      map[string]string{"quick": "6 causes x 5 points x buffers {0,1} x 2 sides; preemption bound <= 1 at coarse switch points (tens to hundreds of schedules per case)", "thorough": "preemption bound <= 2 (hundreds to thousands of schedules per case)"},
 			Assumptions: append(append([]string{}, commonAssumptions...),
 				"goroutines are interpreted with sequentially consistent interleaving; unbuffered channels have exact rendezvous semantics; a goroutine that spins on an always-ready select is descheduled periodically (fairness); in a polling loop only the first two visits of a program point are switch points",
 				"the scripted net.Conn stands for a socket: Read blocks until data/EOF/error/Close, Write never blocks (a peer that stops reading is outside the bound)"),
